@@ -288,6 +288,8 @@ def run_one(ctx, problem, cfg, table, label, workdir=None, tmp_dir=True):
     r = U.run_problem(problem, cfg, want_trace=False, workdir=workdir,
                       tmp_dir=tmp_dir)
     r['pred_fail'] = None
+    U.mutation_violation(ctx, 'C06', r, {'kind': 'single', 'problem': problem,
+                                          'config': cfg})
     if not r['ok'] or r['results'] is None:
         ctx.count('run:fails')
         return r
